@@ -28,9 +28,11 @@ OPEN_STATEMENTS = [
     'sz_indices_spec_free, arbitrary injective disjoint index maps) and every listed index is an eigenstate of the Model sz '
     'operator with eigenvalue sz (sz_indices_eigen, default maps, fixed particle number); the converse through the operator '
     '(every eigenstate is listed) and numUp + numDown = popcount are not stated separately; both oracles cover them',
-    'restrict_is_projection: the index part is proved at the matrix level for the particle number '
-    '(number_indices_matrix_sector: the listed matrix indices are exactly the eigenvalue-k basis states, through the bit '
-    'reversal); that numpy.ix_ extracts those rows / columns in list order is the indexing contract (restrict stream)',
+    'restrict_is_projection is proved for the particle number (number_restrict_is_compression: for a matrix in the '
+    'get_sparse_operator convention the restricted matrix is |I| x |I| with entry (p, q) = Spec matrix element between the p-th '
+    'and q-th listed weight-k basis states; restrict_state_entries); the S_z version follows in the same way from '
+    'sz_indices_spec_* / sz_indices_eigen and is not stated separately; that get_sparse_operator produces that matrix belongs to '
+    'another property (restrict stream: compared with the Spec matrix on every input)',
     'iterate_basis_spec is proved for both flags (iterate_basis_spec_nospin, iterate_basis_spec_spin; the spin version is stated '
     'through vacated / filled alpha and beta orbitals, not through countTrue of the even / odd sublists)',
     'number_preserving_sparse_operator_sound is proved as one statement for operators whose terms are normal-ordered with '
@@ -46,8 +48,8 @@ OPEN_STATEMENTS = [
     'spin operators: proved for every number of sites (tolerance-free Model): sx = (s_plus + s_minus)/2 and '
     'sy = (s_plus - s_minus)/(2i) as operators (sx_sy_ladder), s_squared = S-.S+ + Sz.(Sz + 1) as the composition of the '
     'Model operators (s_squared_composition), sz and the number operator diagonal (sz_operator_diag, number_operator_diag); '
-    'not proved: the commutation relations [S+, S-] = 2 Sz, [Sz, S+-] = +-S+- and the explicit action of s_plus / s_minus on a '
-    'basis state; the special-operators stream checks the Spec formula of every operator on all basis states for 0..3 sites (0..4 in the thorough tier)',
+    's_plus / s_minus = the docstring sums (s_plus_s_minus_formula), [Sz, S+-] = +-S+- (sz_ladder_commutators); not proved: '
+    '[S+, S-] = 2 Sz and S^2 commuting with the ladder operators; the special-operators stream checks the Spec formula of every operator on all basis states for 0..3 sites (0..4 in the thorough tier)',
     'jw_get_ground_state_at_particle_number: float contract over eigsh / eigh only; observation outside the property: it raises '
     'ArpackError when the operator vanishes on a sector of dimension >= 3 (all-zero matrix given to eigsh); those inputs are skipped',
 ]
